@@ -9,6 +9,7 @@ per-constraint and per-variable element views carry the same weights), every ini
 -/
 import SgVerif.Lmm.Lemmas
 import SgVerif.Lmm.Termination
+import SgVerif.Lmm.FbLemmas
 namespace SgVerif.C15
 open SgVerif.Lmm
 
@@ -195,6 +196,83 @@ theorem fb_feasible_counterexample :
     rw [hs] at h; simp at h
     refine ⟨st, rfl, h.1, h.2.1, ?_⟩
     rw [h.2.2]; simp [d2Sys]; norm_num
+
+/-- **`fb_feasible_partial`: FairBottleneck on systems without FATPIPE constraints, exact arithmetic (eps = 0), any
+variable bounds.**  Whenever `FairBottleneck::do_solve` returns, the weighted sum of the rates on every active
+constraint is at most its capacity, and every consumer has a rate in [0, bound].  The excluded case (an active FATPIPE
+constraint) is exactly `fb_feasible_counterexample`.  `WFV`: every enabled element's variable is in `variable_set` and
+the element is also in its variable's `cnsts_`; `variable_set` lists each variable once.
+Invariant (Lmm/FbLemmas.lean, `FbInv`): `0 ≤ remaining_ c ≤ bound c − Σ w·value`; the growing consumers of `c` get
+together at most `nb · usage_ c = remaining_ c` in one pass. -/
+theorem fb_feasible_partial (S : Sys) (hwf : WF S) (hwv : WFV S) (hvo : S.vorder.Nodup)
+    (hsh : ∀ c ∈ S.active, (S.cnst c).fatpipe = false)
+    (val0 : Nat → Rat) (fuel : Nat) (st : FbSt) (h : fbSolve S 0 fuel val0 = some st) :
+    (∀ c ∈ S.active, load S st.value c ≤ (S.cnst c).bound) ∧
+    (∀ c ∈ S.active, ∀ e ∈ (S.cnst c).elems, 0 < e.2 →
+       0 ≤ st.value e.1 ∧ (0 < (S.var e.1).bound → st.value e.1 ≤ (S.var e.1).bound)) :=
+  fb_feasible_shared S hwf hwv hvo hsh val0 fuel st h
+
+/-- non-vacuity: two summing constraints (capacities 10 and 2), three variables, one bounded:
+c0 = {v0 (bound 1), v1 (penalty 2), v2}, c1 = {v2} -/
+def shSys : Sys :=
+  { cnst := fun c => if c = 0 then { bound := 10, fatpipe := false, elems := [(2, 1), (1, 1), (0, 1)] }
+                     else if c = 1 then { bound := 2, fatpipe := false, elems := [(2, 1)] }
+                     else { bound := 0, fatpipe := false, elems := [] },
+    var := fun v => if v = 0 then { penalty := 1, bound := 1, cnsts := [(0, 1)] }
+                    else if v = 1 then { penalty := 2, bound := -1, cnsts := [(0, 1)] }
+                    else if v = 2 then { penalty := 1, bound := -1, cnsts := [(0, 1), (1, 1)] }
+                    else { penalty := 0, bound := -1, cnsts := [] },
+    active := [0, 1], vorder := [2, 1, 0] }
+
+theorem shSys_wf : WF shSys := by
+  constructor
+  · decide
+  · intro c hc; simp [shSys] at hc; rcases hc with rfl | rfl <;> simp [shSys]
+  · intro c hc e he; simp [shSys] at hc
+    rcases hc with rfl | rfl <;> simp [shSys] at he
+    · rcases he with rfl | rfl | rfl <;> simp [shSys]
+    · subst he; simp [shSys]
+  · intro c hc e he; simp [shSys] at hc
+    rcases hc with rfl | rfl <;> simp [shSys] at he
+    · rcases he with rfl | rfl | rfl <;> norm_num
+    · subst he; norm_num
+  · intro v e he
+    by_cases h0 : v = 0
+    · subst h0; simp [shSys] at he; subst he; norm_num
+    · by_cases h1 : v = 1
+      · subst h1; simp [shSys] at he; subst he; norm_num
+      · by_cases h2 : v = 2
+        · subst h2; simp [shSys] at he; rcases he with rfl | rfl <;> norm_num
+        · simp [shSys, h0, h1, h2] at he
+  · intro c hc v hp
+    simp [shSys] at hc
+    by_cases h0 : v = 0
+    · subst h0; rcases hc with rfl | rfl <;> simp [shSys, wOf, sumBy]
+    · by_cases h1 : v = 1
+      · subst h1; rcases hc with rfl | rfl <;> simp [shSys, wOf, sumBy]
+      · by_cases h2 : v = 2
+        · subst h2; rcases hc with rfl | rfl <;> simp [shSys, wOf, sumBy]
+        · simp [shSys, h0, h1, h2] at hp
+
+theorem shSys_wfv : WFV shSys := by
+  constructor
+  · intro c hc e he; simp [shSys] at hc
+    rcases hc with rfl | rfl <;> simp [shSys] at he
+    · rcases he with rfl | rfl | rfl <;> simp [shSys]
+    · subst he; simp [shSys]
+  · intro c hc e he; simp [shSys] at hc
+    rcases hc with rfl | rfl <;> simp [shSys] at he
+    · rcases he with rfl | rfl | rfl <;> simp [shSys]
+    · subst he; simp [shSys]
+
+/-- FairBottleneck returns on `shSys` (which meets every hypothesis of `fb_feasible_partial`): v0 = 1, v1 = 7, v2 = 2,
+loads 10 and 2 -/
+example : (fbSolve shSys 0 4 (fun _ => 0)).map
+    (fun st => (st.value 0, st.value 1, st.value 2, load shSys st.value 0, load shSys st.value 1)) = some (1, 7, 2, 10, 2) := by
+  decide +kernel
+
+example : shSys.vorder.Nodup ∧ ∀ c ∈ shSys.active, (shSys.cnst c).fatpipe = false :=
+  ⟨by decide, by intro c hc; simp [shSys] at hc; rcases hc with rfl | rfl <;> simp [shSys]⟩
 
 /-- on the same system maxmin is feasible (instance of `maxmin_feasible`): 1 and 10 -/
 example : (maxminSolve d2Sys 0 4 (fun _ => 0)).map (fun st => (st.value 0, st.value 1)) = some (1, 10) := by
